@@ -20,6 +20,7 @@ type verifBlockRWC struct {
 	writeBlocks bool
 	closed      int
 	inWrite     int
+	readErr     error // what the failing Read reports (default verifErrRead)
 }
 
 func (t *verifBlockRWC) Read(p []byte) (int, error) {
@@ -31,6 +32,9 @@ func (t *verifBlockRWC) Read(p []byte) (int, error) {
 	verifBlockUntil(&t.wake)
 	if t.closedFlag {
 		return 0, io.ErrClosedPipe
+	}
+	if t.readErr != nil {
+		return 0, t.readErr
 	}
 	return 0, verifErrRead
 }
@@ -164,8 +168,14 @@ func verifHarness_C13_failed_write(cause int, k int, wrap int) {
 // transport Write that only returns when the transport is closed (busy 1): exactly one close event, carrying the
 // read error, the transport closed, the channel's goroutines all finished, done closed.
 func verifHarness_C14_read_failure(busy int) {
+	// busy 2 / 3: as 0 / 1 with the peer disconnecting cleanly (the transport reports io.EOF)
+	want := verifErrRead
+	if busy >= 2 {
+		want = io.EOF
+		busy -= 2
+	}
 	n := verifBareNode(V2, 1, 1)
-	t := &verifBlockRWC{writeBlocks: busy == 1}
+	t := &verifBlockRWC{writeBlocks: busy == 1, readErr: want}
 	ch := verifStartedChannel(n, t)
 	verifRunGoroutines(func() { ch.run() })
 	if busy == 1 {
@@ -178,7 +188,7 @@ func verifHarness_C14_read_failure(busy int) {
 	stillBlocked := verifRunGoroutines(nil)
 	_, closes, _, _, cerr := verifDrainEvents(n)
 	verifAssert(closes == 1, "C14/L2/exactly-one-close-event-after-a-read-failure")
-	verifAssert(closes != 1 || cerr == verifErrRead, "C14/L2/close-event-carries-the-cause")
+	verifAssert(closes != 1 || cerr == want, "C14/L2/close-event-carries-the-cause")
 	verifAssert(t.closed >= 1, "C14/L2/transport-closed")
 	verifAssert(!stillBlocked, "C14/L2/no-goroutine-of-the-channel-left-behind")
 	select {
@@ -276,9 +286,14 @@ func verifHarness_C10_consumer(keyed int, chunk int) {
 	verifRunGoroutines(func() { ch.run() })
 	want := []int{0, 1, 2, 1, 1, 3} // 0 open, 1 frame, 2 parse error, 3 close
 	seqs := []byte{0, 20, 0, 21, 22, 0}
+	// the application queues the events it receives and looks at them afterwards (bursty consumption): an event
+	// handed over stays what it was while later input is parsed
+	got := make([]Event, 0, len(want))
 	for i := 0; i < len(want); i++ {
-		evt := <-n.chEvent // the application receives: the goroutines run on until an event is handed over
-		switch e := evt.(type) {
+		got = append(got, <-n.chEvent) // the goroutines run on until an event is handed over
+	}
+	for i := 0; i < len(want); i++ {
+		switch e := got[i].(type) {
 		case *EventChannelOpen:
 			verifAssert(want[i] == 0 && e.Channel == ch, "C10/C/open-first")
 		case *EventFrame:
@@ -345,4 +360,73 @@ func verifHarness_C10_write_failure_order() {
 		verifAssert(len(n.chEvent) == 0 && verifBlockedGoroutines() == 0, "C10/W/nothing-after-close")
 	}
 	verifReach("C10/W")
+}
+
+// endpoint handing its transport to the channel directly (as the TCP / UDP / serial endpoints do), once
+type verifDirectEndpoint struct {
+	t      *verifBlockRWC
+	calls  int
+	closed int
+}
+
+func (e *verifDirectEndpoint) Conf() EndpointConf      { return nil }
+func (e *verifDirectEndpoint) isEndpoint()             {}
+func (e *verifDirectEndpoint) close()                  { e.closed++ }
+func (e *verifDirectEndpoint) oneChannelAtAtime() bool { return true }
+func (e *verifDirectEndpoint) provide() (string, io.ReadWriteCloser, error) {
+	e.calls++
+	if e.calls > 1 {
+		return "", nil, errTerminated
+	}
+	return "direct", e.t, nil
+}
+
+type verifDirectConf struct{ ep *verifDirectEndpoint }
+
+func (c verifDirectConf) init(*Node) (Endpoint, error) { return c.ep, nil }
+
+// C13 (first sentence at node level, one schedule): two links whose transports the channels close themselves; the application has taken the open events and then
+// stops receiving events. A write to all links fails on link A. Whatever the failing channel does about it, the node
+// keeps serving: two further writes to all links return and reach the healthy link B, in order.
+func verifHarness_C13_node_keeps_serving(perm int) {
+	a, b := &verifBlockRWC{}, &verifBlockRWC{}
+	if perm == 1 {
+		a.SetFailFrom(1)
+	} else {
+		a.SetFailAt(1)
+	}
+	n := &Node{Dialect: verifHarnessDialect, OutVersion: V2, OutSystemID: 1, HeartbeatDisable: true,
+		Endpoints: []EndpointConf{verifDirectConf{&verifDirectEndpoint{t: a}}, verifDirectConf{&verifDirectEndpoint{t: b}}}}
+	var ierr error
+	verifRunGoroutines(func() { ierr = n.Initialize() })
+	verifAssert(ierr == nil, "C13/N/initialize-ok")
+	for i := 0; i < 2; i++ {
+		evt := <-n.chEvent
+		_, isOpen := evt.(*EventChannelOpen)
+		verifAssert(isOpen, "C13/N/open-events-first")
+		verifRunGoroutines(nil)
+	}
+	// from here on the application is busy elsewhere: nobody receives from Events()
+	msgs := []*message.MessageRaw{
+		{ID: 202, Payload: []byte{1, 1, 1, 1, 1}},
+		{ID: 202, Payload: []byte{2, 2, 2, 2, 2}},
+		{ID: 202, Payload: []byte{3, 3, 3, 3, 3}},
+	}
+	for i, m := range msgs {
+		returned := false
+		m := m
+		verifRunGoroutines(func() { n.WriteMessageAll(m); returned = true }) //nolint:errcheck
+		verifAssert(returned, "C13/N/write-returns-although-a-channel-failed-and-nobody-reads-events")
+		if !returned {
+			return
+		}
+		verifAssert(b.Calls() == i+1, "C13/N/healthy-link-served")
+	}
+	// B got the three frames in order (5-byte payloads 1.., 2.., 3.. inside 17-byte frames)
+	buf := b.Buf()
+	verifAssert(len(buf) == 3*17, "C13/N/healthy-link-got-every-frame")
+	if len(buf) == 3*17 {
+		verifAssert(buf[10] == 1 && buf[17+10] == 2 && buf[34+10] == 3, "C13/N/healthy-link-in-order")
+	}
+	verifReach("C13/N")
 }
